@@ -1,4 +1,5 @@
-"""Search horizons of the schedulers and of the availability search, read with `ast`."""
+"""Search horizons of the schedulers and of the availability search, and the default calendar of a resource
+that was not supplied (C03: `Resource(name)` -> `DEFAULT_CALENDAR`), read with `ast`."""
 import ast
 import os
 
@@ -37,6 +38,145 @@ def _int_default(tree, cls, meth, arg, problems):
     return d.value
 
 
+# ---------- C03: the calendar of a resource that was not supplied ------------------------------------
+def _is_int(node):
+    return isinstance(node, ast.Constant) and isinstance(node.value, int) and not isinstance(node.value, bool)
+
+
+def _module_bindings(tree, name):
+    """every statement of the module (at any depth) that can bind or change `name`"""
+    hits = []
+    for node in ast.walk(tree):
+        targets = []
+        if isinstance(node, ast.Assign):
+            targets = node.targets
+        elif isinstance(node, (ast.AugAssign, ast.AnnAssign)):
+            targets = [node.target]
+        elif isinstance(node, (ast.Import, ast.ImportFrom)):
+            if any((a.asname or a.name.split('.')[0]) == name for a in node.names):
+                hits.append(node)
+            continue
+        elif isinstance(node, (ast.FunctionDef, ast.ClassDef)) and node.name == name:
+            hits.append(node)
+            continue
+        elif isinstance(node, (ast.Global, ast.Nonlocal)) and name in node.names:
+            hits.append(node)
+            continue
+        elif isinstance(node, ast.Delete):
+            targets = node.targets
+        elif isinstance(node, (ast.For, ast.AsyncFor)):
+            targets = [node.target]
+        elif isinstance(node, (ast.With, ast.AsyncWith)):
+            targets = [i.optional_vars for i in node.items if i.optional_vars is not None]
+        elif isinstance(node, ast.NamedExpr):
+            targets = [node.target]
+        for t in targets:
+            for n in ast.walk(t):
+                if isinstance(n, ast.Name) and n.id == name:
+                    hits.append(node)
+                # DEFAULT_CALENDAR.x = ... / setattr-like mutation through an attribute or subscript target
+                if isinstance(n, (ast.Attribute, ast.Subscript)) and isinstance(n.value, ast.Name) and n.value.id == name:
+                    hits.append(node)
+    return hits
+
+
+def _default_calendar(repo, sched, res, problems):
+    """`default_weekdays : list Z`, `default_units : Z`: the arguments of
+    `DEFAULT_CALENDAR = WeeklyCalendar(days=[...], units_per_day=n)` in calendar.py, provided that this is the calendar
+    a `Resource(name)` gets and that the schedulers create missing resources exactly so.  Every deviation from the
+    expected shape of the source is a problem and the constants are NOT emitted (the build of Props_C03 then fails)."""
+    n0 = len(problems)
+    with open(os.path.join(repo, 'src/pjplan/calendar.py'), encoding='utf-8') as f:
+        cal = ast.parse(f.read())
+    with open(os.path.join(repo, 'src/pjplan/__init__.py'), encoding='utf-8') as f:
+        init = ast.parse(f.read())
+
+    # 1. calendar.py: exactly one binding of DEFAULT_CALENDAR, at module level, of the expected shape
+    days = units = None
+    binds = _module_bindings(cal, 'DEFAULT_CALENDAR')
+    top = [n for n in cal.body if isinstance(n, ast.Assign) and len(n.targets) == 1
+           and isinstance(n.targets[0], ast.Name) and n.targets[0].id == 'DEFAULT_CALENDAR']
+    if len(binds) != 1 or len(top) != 1 or binds[0] is not top[0]:
+        problems.append('calendar.py: DEFAULT_CALENDAR is not bound exactly once, by a plain module-level assignment')
+    else:
+        call = top[0].value
+        if not (isinstance(call, ast.Call) and isinstance(call.func, ast.Name) and call.func.id == 'WeeklyCalendar'
+                and not call.args):
+            problems.append('calendar.py: DEFAULT_CALENDAR is not a WeeklyCalendar(...) call with keyword arguments only')
+        else:
+            kws = {}
+            for k in call.keywords:
+                if k.arg is None or k.arg in kws:
+                    problems.append('calendar.py: DEFAULT_CALENDAR has a ** or repeated keyword argument')
+                kws[k.arg] = k.value
+            for k, v in kws.items():
+                if k in ('start', 'end'):
+                    if not (isinstance(v, ast.Constant) and v.value is None):
+                        problems.append('calendar.py: DEFAULT_CALENDAR has a validity bound (%s)' % k)
+                elif k not in ('days', 'units_per_day'):
+                    problems.append('calendar.py: DEFAULT_CALENDAR has an unexpected argument %r' % k)
+            d = kws.get('days')
+            if not (isinstance(d, ast.List) and all(_is_int(e) and 0 <= e.value <= 6 for e in d.elts)):
+                problems.append('calendar.py: days of DEFAULT_CALENDAR is not a list of int literals 0..6')
+            else:
+                days = [e.value for e in d.elts]
+            u = kws.get('units_per_day')
+            if not (_is_int(u) and u.value >= 0):
+                problems.append('calendar.py: units_per_day of DEFAULT_CALENDAR is not a non-negative int literal')
+            else:
+                units = u.value
+    # the class the call names is the one defined in calendar.py (defined once, never rebound)
+    wk = _module_bindings(cal, 'WeeklyCalendar')
+    if not (len(wk) == 1 and isinstance(wk[0], ast.ClassDef) and wk[0] in cal.body):
+        problems.append('calendar.py: WeeklyCalendar is not defined exactly once as a module-level class')
+
+    # 2. pjplan/__init__.py re-exports it from pjplan.calendar, resource.py takes it from pjplan
+    def imported_from(tree, modules, name, where):
+        b = _module_bindings(tree, name)
+        ok = (len(b) == 1 and isinstance(b[0], ast.ImportFrom) and b[0] in tree.body
+              and (('.' * b[0].level) + (b[0].module or '')) in modules
+              and any(a.name == name and a.asname in (None, name) for a in b[0].names))
+        if not ok:
+            problems.append('%s: %s is not bound exactly once by `from %s import %s`' % (where, name, modules[0], name))
+    imported_from(init, ('pjplan.calendar', '.calendar'), 'DEFAULT_CALENDAR', 'pjplan/__init__.py')
+    imported_from(res, ('pjplan', 'pjplan.calendar', '.calendar'), 'DEFAULT_CALENDAR', 'resource.py')
+
+    # 3. Resource.__init__(self, name, calendar=DEFAULT_CALENDAR) stores the calendar as it is
+    f = _find_method(res, 'Resource', '__init__')
+    if f is None or f.name != '__init__':
+        problems.append('resource.py: Resource.__init__ not found')
+    else:
+        names = [a.arg for a in f.args.posonlyargs + f.args.args]
+        d = _defaults(f).get('calendar')
+        if names[:3] != ['self', 'name', 'calendar'] or not (isinstance(d, ast.Name) and d.id == 'DEFAULT_CALENDAR'):
+            problems.append('resource.py: Resource.__init__ is not (self, name, calendar=DEFAULT_CALENDAR)')
+        stores = [n for n in ast.walk(f) if isinstance(n, ast.Assign) and len(n.targets) == 1
+                  and isinstance(n.targets[0], ast.Attribute) and isinstance(n.targets[0].value, ast.Name)
+                  and n.targets[0].value.id == 'self' and n.targets[0].attr == 'calendar']
+        if not (len(stores) == 1 and isinstance(stores[0].value, ast.Name) and stores[0].value.id == 'calendar'):
+            problems.append('resource.py: Resource.__init__ does not store its calendar argument as self.calendar')
+
+    # 4. both schedulers create a missing resource as Resource(<task>.resource): one positional argument, no calendar
+    for cls in ('ForwardScheduler', 'BackwardScheduler'):
+        node = next((n for n in ast.walk(sched) if isinstance(n, ast.ClassDef) and n.name == cls), None)
+        calls = [] if node is None else [c for c in ast.walk(node) if isinstance(c, ast.Call)
+                                          and isinstance(c.func, ast.Name) and c.func.id == 'Resource']
+        if not calls:
+            problems.append('schedule.py: %s creates no Resource(...)' % cls)
+        for c in calls:
+            if len(c.args) != 1 or c.keywords:
+                problems.append('schedule.py: %s creates a resource with other arguments than its name (line %d)' % (cls, c.lineno))
+    b = _module_bindings(sched, 'Resource')
+    if not (len(b) == 1 and isinstance(b[0], ast.ImportFrom) and (b[0].module or '') in ('pjplan', 'pjplan.resource')):
+        problems.append('schedule.py: Resource is not bound exactly once by an import from pjplan')
+
+    if len(problems) > n0 or days is None or units is None:
+        return []
+    return ['(* calendar.DEFAULT_CALENDAR = WeeklyCalendar(days=%r, units_per_day=%r): the calendar of Resource(name) *)' % (days, units),
+            'Definition default_weekdays : list Z := [%s].' % '; '.join(str(d) for d in days),
+            'Definition default_units : Z := %d.' % units]
+
+
 def emit(repo):
     problems = []
     with open(os.path.join(repo, 'src/pjplan/schedule.py'), encoding='utf-8') as f:
@@ -54,4 +194,5 @@ def emit(repo):
     for k, v in vals.items():
         if v is not None:
             out.append('Definition %s : Z := %d.' % (k, v))
+    out += _default_calendar(repo, sched, res, problems)
     return '\n'.join(out) + '\n', problems
